@@ -43,7 +43,7 @@ use d_engine_proto::server::election::VoteRequest;
 use d_engine_proto::server::replication::{
     AppendEntriesRequest, AppendEntriesResponse, ConflictResult, SuccessResult, append_entries_response,
 };
-use dv::{family_main, fields, nat_list, rng::Rng, show_list};
+use dv::{fields, nat_list, rng::Rng, show_list};
 use tokio::sync::mpsc;
 
 #[derive(Debug, Clone, Copy)]
@@ -98,6 +98,7 @@ async fn world(node_id: u32, voters: Vec<u32>, learners: Vec<u32>, log_terms: &[
     sm.expect_last_applied().return_const(LogId { index: 0, term: 0 });
     sm.expect_is_running().returning(|| true);
     sm.expect_snapshot_metadata().returning(|| None);
+    sm.expect_get_multi().returning(|keys| Ok(keys.iter().map(|_| None).collect()));
     let mut membership = MockMembership::<LT>::new();
     let v2 = voters.clone();
     membership.expect_voters().returning(move || v2.iter().map(|i| node_meta(*i, NodeRole::Follower)).collect());
@@ -174,7 +175,8 @@ async fn exec_leader(f: &std::collections::HashMap<String, String>, ops: &str) -
     let mut stepped = false; // role changed to follower: the LeaderState no longer exists in the Raft loop
     let (etx, _erx) = mpsc::channel::<InboundEvent>(16);
     for op in ops.split(';').filter(|s| !s.is_empty()) {
-        if stepped && op != "r" && !op.starts_with('c') {
+        let is_clock = op.starts_with('c') && !op.starts_with("cu");
+        if stepped && op != "r" && !is_clock {
             out.push("-".into());
             continue;
         }
@@ -188,9 +190,27 @@ async fn exec_leader(f: &std::collections::HashMap<String, String>, ops: &str) -
             stepped = r.is_ok();
             out.push(format!("{}.{}", obs(&l), if r.is_ok() { "ok" } else { "err" }));
         } else if op == "r" {
-            let lease_ok = l.shared_state.lease.is_valid(now_ms());
+            // the two real fast paths (ReadActor::serve_read, EmbeddedReadHandle::get_batch) on the shared lease word
+            let keys = vec![bytes::Bytes::from_static(b"k")];
+            let actor_ok = d_engine_server::verif_lease_paths::verif_serve_lease_read(
+                &l.shared_state.lease,
+                &w.ctx.storage.state_machine,
+                keys.clone(),
+            )
+            .is_ok();
+            let embedded_ok = d_engine_server::verif_lease_paths::verif_embedded_lease_read_is_local::<LT>(
+                w.ctx.storage.state_machine.clone(),
+                l.shared_state.lease.clone(),
+                keys,
+            )
+            .await;
             let leader_ok = l.is_lease_valid();
-            out.push(format!("{}.{}", lease_ok as u8, if stepped { 0 } else { leader_ok as u8 }));
+            out.push(format!(
+                "{}.{}.{}",
+                actor_ok as u8,
+                embedded_ok as u8,
+                if stepped { 0 } else { leader_ok as u8 }
+            ));
         } else if let Some(a) = op.strip_prefix("ae") {
             let t: u64 = a.parse().unwrap();
             let (tx, _rx) = MaybeCloneOneshot::new();
@@ -464,6 +484,53 @@ fn generate(r: &mut Rng, n: usize, _tier: &str) -> Vec<String> {
     out
 }
 
+/// Same protocol as `dv::family_main`, but the real code under test prints to stdout (`println!` in
+/// `LeaderState::become_follower`), which would corrupt the line protocol: fd 1 is redirected to /dev/null and the
+/// protocol lines go to a duplicate of the original stdout.
+fn family_main_quiet(
+    generate: impl Fn(&mut Rng, usize, &str) -> Vec<String>,
+    exec: impl Fn(&str) -> String + std::panic::RefUnwindSafe,
+) {
+    use std::io::{BufRead, Write};
+    use std::os::fd::FromRawFd;
+    unsafe extern "C" {
+        fn dup(fd: i32) -> i32;
+        fn dup2(a: i32, b: i32) -> i32;
+    }
+    let args: Vec<String> = std::env::args().collect();
+    let mode = args.get(1).map(|s| s.as_str()).unwrap_or("");
+    let cases: Vec<String> = match mode {
+        "gen" => {
+            let seed: u64 = args.get(2).and_then(|s| s.parse().ok()).unwrap_or(0);
+            let n: usize = args.get(3).and_then(|s| s.parse().ok()).unwrap_or(100);
+            let tier = args.get(4).map(|s| s.as_str()).unwrap_or("quick");
+            let mut r = Rng::new(seed);
+            generate(&mut r, n, tier)
+        }
+        "run" => std::io::stdin().lock().lines().map(|l| l.unwrap()).filter(|l| !l.is_empty()).collect(),
+        _ => {
+            eprintln!("usage: {} gen <seed> <n> <tier> | run", args[0]);
+            std::process::exit(2);
+        }
+    };
+    let out = unsafe {
+        let saved = dup(1);
+        let null = std::fs::OpenOptions::new().write(true).open("/dev/null").expect("devnull");
+        dup2(std::os::fd::AsRawFd::as_raw_fd(&null), 1);
+        std::fs::File::from_raw_fd(saved)
+    };
+    std::panic::set_hook(Box::new(|_| {}));
+    let mut w = std::io::BufWriter::new(out);
+    for c in cases {
+        let o = match std::panic::catch_unwind(|| exec(&c)) {
+            Ok(o) => o,
+            Err(_) => "panic".to_string(),
+        };
+        writeln!(w, "{}\t{}", c, o).unwrap();
+    }
+    w.flush().unwrap();
+}
+
 fn main() {
-    family_main(generate, exec);
+    family_main_quiet(generate, exec);
 }
